@@ -67,7 +67,9 @@ class LogController:
 
     @property
     def value(self) -> float:
-        return math.exp(self.controller.value)
+        # saturate: a wound-up integral term must not overflow (or underflow
+        # to zero, the value is used as a divisor) the exponential
+        return math.exp(min(max(self.controller.value, -700.0), 700.0))
 
     def update(self, val: float) -> float:
         assert val > 0.0
